@@ -6,10 +6,12 @@ PROP = "C03"
 
 def run(tier):
     if tier == "quick":
-        scs = [dict(scenario="c03h", p=2, m=2, bound=2, glib=1), dict(scenario="c03h", p=2, m=1, bound=2, glib=0), dict(scenario="c03h", p=3, m=1, bound=1, glib=1)]
+        scs = [dict(scenario="c03h", p=2, m=2, bound=2, glib=1), dict(scenario="c03h", p=2, m=1, bound=2, glib=0), dict(scenario="c03h", p=3, m=1, bound=1, glib=1),
+               dict(scenario="c03g", p=2, m=2, bound=1, glib=1, _shards=16), dict(scenario="c03g", p=1, m=5, bound=2, glib=0), dict(scenario="c03h", p=1, m=4, bound=2, glib=1)]
         dl = 150
     else:
-        scs = [dict(scenario="c03h", p=2, m=2, bound=3, glib=1), dict(scenario="c03h", p=2, m=2, bound=2, glib=0), dict(scenario="c03h", p=3, m=1, bound=2, glib=1), dict(scenario="c03h", p=2, m=3, bound=2, glib=1)]
+        scs = [dict(scenario="c03h", p=2, m=2, bound=3, glib=1), dict(scenario="c03h", p=2, m=2, bound=2, glib=0), dict(scenario="c03h", p=3, m=1, bound=2, glib=1), dict(scenario="c03h", p=2, m=3, bound=2, glib=1),
+               dict(scenario="c03g", p=2, m=2, bound=2, glib=1), dict(scenario="c03g", p=2, m=3, bound=1, glib=0, _shards=16), dict(scenario="c03g", p=1, m=5, bound=3, glib=1), dict(scenario="c03h", p=1, m=5, bound=3, glib=0)]
         dl = 1500
     return vsrun.vs_check(
         PROP, tier, scs, deadline_s=dl, min_outcomes=2,
@@ -17,7 +19,10 @@ def run(tier):
              "built with heap-allocated file/function/category strings (or null pointers), pre-set formatted text and attributes, and the caller poisons and frees those buffers right "
              "after process() returns; the sink (with yield points) compares EVERY accessor (type, text, file, line, function, category, time, steady time, thread id, formatted text, "
              "attributes) with the original; oracle per execution: exactly once, per-producer FIFO, a call that returned before another began is delivered first (logical clock), every "
-             "delivery on the worker thread, the worker never holds the handler mutex while a sink runs; both event-dispatcher variants; distinct_nontrivial = distinct delivery orders",
+             "delivery on the worker thread, while the worker is inside a sink no other thread waits (or starts waiting) for any lock the worker holds; both event-dispatcher variants. Each producer "
+             "REUSES one caller-owned buffer for the file/function/category strings of all its messages (same address, new contents) and poisons it after every call. Scenario c03g: the same "
+             "through a Logger moved to its own thread, entered through processMessage() with the caller's QMessageLogContext, all five message types including fatal; the message object is "
+             "created inside the call, so time / steady time must lie inside the producer's call interval and the thread id must be the producer's; distinct_nontrivial = distinct delivery orders",
         assumptions=vsrun.VS_ASSUMPTIONS + ["null and empty C strings are identified (the copy constructor turns nullptr into \"\")"])
 
 
